@@ -76,17 +76,24 @@ def utilities(case: Case, sat):
     for b in case.ballots:
         if sat == "Cost_Sat":
             us.append({p: (case.cost[p] if p in b else F(0)) for p in case.names})
-        elif sat == "Cardinality_Sat":
+        elif sat in ("Cardinality_Sat", "CC_Sat"):
             us.append({p: (F(1) if p in b else F(0)) for p in case.names})
         else:
             us.append({p: F(b[p]) for p in case.names})
     if sat == "Cost_Sat":
         full = {p: case.cost[p] for p in case.names}
-    elif sat == "Cardinality_Sat":
+    elif sat in ("Cardinality_Sat", "CC_Sat"):
         full = {p: F(1) for p in case.names}
     else:
         full = None
     return us, full
+
+
+# measures that are not additive: the value of a SET from the per-project values (Chamberlin-Courant on approval ballots: 1 as soon as
+# one approved project is in the set).  The checkers take any satisfaction class; with such a one only the notions stated through the
+# voters' own satisfaction are compared (core, strong EJR, EJR and its relaxations), not PJR, which scores the group's approved set
+SETFN = {"CC_Sat": lambda vals: F(1) if any(v > 0 for v in vals) else F(0)}
+VOTER_KEYS = ("core", "core_any", "core_one", "sEJR", "EJR", "EJR_any", "EJR_one")
 
 
 class Defs:
@@ -116,6 +123,9 @@ class Defs:
         u, full, case = self.u, self.full, self.case
         Wset = set(W)
         res = {k: True for k in KEYS}
+        setfn = SETFN.get(self.sat)
+        if setfn is not None:
+            return self.evaluate_setfn(W, setfn)
         satW = [sum((ui[p] for p in W), F(0)) for ui in u]
         for S, T, coh in self.pairs:
             out = [p for p in T if p not in Wset]
@@ -146,6 +156,31 @@ class Defs:
                 if res[key] and not gsat + _up(UP[key], pvals) >= pthr:
                     res[key] = False
         return res
+
+
+def _evaluate_setfn(self, W, fn):
+    """the voter-level notions for a satisfaction that is a function of the SET (approval ballots)"""
+    u = self.u
+    Wset = set(W)
+    res = {k: True for k in VOTER_KEYS}
+    S_ = lambda i, X: fn([u[i][p] for p in X])  # noqa: E731
+    satW = [S_(i, W) for i in range(len(u))]
+    for S, T, coh in self.pairs:
+        out = [p for p in T if p not in Wset]
+        for key in ("core", "core_any", "core_one"):
+            if res[key] and not any(satW[i] + _up(UP[key], (S_(i, [p]) for p in out)) >= S_(i, T) for i in S):
+                res[key] = False
+        if not coh:
+            continue
+        if res["sEJR"] and not all(satW[i] >= S_(i, T) for i in S):
+            res["sEJR"] = False
+        for key in ("EJR", "EJR_any", "EJR_one"):
+            if res[key] and not any(satW[i] + _up(UP[key], (S_(i, [p]) for p in out)) >= S_(i, T) for i in S):
+                res[key] = False
+    return res
+
+
+Defs.evaluate_setfn = _evaluate_setfn
 
 
 # ----------------------------------------------------------------------------------------------
@@ -258,7 +293,7 @@ def check_case(ctx, case: Case, lines, alloc_cap=None, do_model=True):
         inst, projs = core.build_instance(case)
         prof = core.build_profile(case, inst, projs, multi=multi)
         builds[multi] = (inst, projs, prof, core.profile_entries(case, prof))
-    for sat in SATS[case.btype]:
+    for sat in SATS[case.btype] + (["CC_Sat"] if case.btype == "app" and case.seed % 3 == 0 else []):
         defs = Defs(case, sat)
         for W in allocs:
             want = defs.evaluate(W)
@@ -275,7 +310,7 @@ def check_case(ctx, case: Case, lines, alloc_cap=None, do_model=True):
                 cfg = {"sat": sat, "multi": multi, "W": W}
                 if defs.any_cohesive and len(set(got.values())) > 1:
                     ctx.nontrivial.add((case.key(), tuple(W), sat, multi))
-                for key in KEYS:
+                for key in (KEYS if sat not in SETFN else VOTER_KEYS):
                     if got[key] != want[key]:
                         ctx.violations.append({
                             "what": f"{checker_name(case, key)} ({key}) answers {got[key]} but the definition over all groups says {want[key]}",
@@ -283,13 +318,15 @@ def check_case(ctx, case: Case, lines, alloc_cap=None, do_model=True):
                             "sig": {"call": checker_name(case, key), "notion": key, "multi": multi, "sat": sat, "kind": "definition"},
                         })
                 for a, b in IMPLICATIONS:
+                    if sat in SETFN and (a not in VOTER_KEYS or b not in VOTER_KEYS):
+                        continue
                     if got[a] is True and got[b] is False:
                         ctx.violations.append({
                             "what": f"implication {a} => {b} broken on the library's answers",
                             "case": case.to_json(), "cfg": cfg, "impl": bits(got), "expected": bits(want),
                             "sig": {"call": checker_name(case, a), "notion": a, "implies": b, "multi": multi, "sat": sat, "kind": "lattice"},
                         })
-                if do_model:
+                if do_model and sat not in SETFN:
                     lines.append((model_line(case, entries, sat, W), bits(got), bits(want), case, cfg))
     # Equal Shares
     if case.btype == "app":
